@@ -88,10 +88,9 @@ type TypedCollection[T any] struct {
 // NewTypedCollection creates a collection for a specific entity type.
 // The entity type name is determined from the type parameter T.
 func NewTypedCollection[T any](store Store[T]) *TypedCollection[T] {
-	var zero T
 	return &TypedCollection[T]{
 		store:      store,
-		entityType: EntityType(zero),
+		entityType: entityTypeOf[T](),
 	}
 }
 
